@@ -7,6 +7,7 @@ focus = {
  'core': 'Prefer a change inside the core machinery where the property allows it — the compile-time computation of the jump / stack / parent-index tables, the evaluator loops (Eval, TryEval and their helpers), the optimizer passes, the parser algorithms, config copying/registration — rather than flipping a constant in a table or editing a single built-in operator. Changes where two sites cooperate, or where only one of two sibling code paths is changed, are especially welcome.',
  'indirect': 'Prefer a change in code the property depends on only INDIRECTLY — a helper, predicate, constructor, option handler, lookup table builder, copy routine, classification function or error path that several callers share — or a NEW fast path / cache / early exit / pre-check added in front of existing logic and guarded by a condition that is almost always, but not always, equivalent to the slow path. Changes that need two cooperating edits (each harmless alone), or that only misbehave on the second use of some object (second Compile with a config, second Eval with a context, a config derived from another), or only for one of several aliases / notations / option combinations, are especially welcome. Avoid deleting a guard outright or flipping a single table constant.',
  'invariant': 'Prefer a change in a PRODUCER of some internal data structure or invariant that a distant CONSUMER relies on (node order, parent indexes, child counts, stack slots, jump targets, flag bits, key tables, token lists, cost fields, option maps): the producer change looks locally reasonable, the consumer is untouched, and only certain shapes make the consumer misbehave. Also welcome: off-by-one at capacity boundaries, integer width / overflow / truncation / sign handling, empty or singleton collections, Unicode versus byte lengths, dependence on map iteration order, aliasing of slices (append sharing a backing array), zero value versus absent entry, and a sibling code path (the other evaluator, the other notation, the other fetcher, event mode) that is not updated together with the one you change.',
+ 'sibling': 'Prefer a change in the LESS-TRAVELLED of two sibling code paths that must agree: TryEval versus Eval, event-reporting mode versus plain mode, infix notation versus S-expression notation, the ;;;; directive line versus CompileOptions, a config produced by CopyConfig versus a fresh one, the indexed variable fetcher versus the map fetcher, the cached selector key versus the string key, the Dump/DumpTable/HandleDebugEvent diagnostics versus the engine they describe, the random expression generator versus the parser that must accept its output. Change only one of the two so that they silently disagree on a rare shape; the common path and everything the existing tests sample stay right. Avoid deleting a guard outright or flipping a single table constant.',
  'value': 'Prefer a change that keeps the overall structure intact — every loop still runs to its end, every error is still propagated, every guard is still present — but makes some computed VALUE wrong in a rare case: an index or offset expression, an arithmetic/bit expression, an operand of a comparison, which of two similar variables is used, a value carried from one iteration to the next, an initial value, what is stored into a table versus what is later read from it. Also welcome: a wrong interplay between two features that are each right alone (event mode + an optimisation, infix + directives, config copying + a later registration, a cache + a second call), or a change to a rarely used branch of a helper shared by several callers.',
 }[sys.argv[2] if len(sys.argv) > 2 else 'core']
 tmpl = '''You are helping test a verification setup for the Go library github.com/onheap/eval (an S-expression / infix expression engine: lexer, parser, AST optimizer, flat stack-based evaluator with short-circuit jumps). You have your own scratch git worktree of the library at {wt} (a detached checkout; work ONLY inside that directory; do not read or touch /verif or /repo).
@@ -34,9 +35,9 @@ Then write a demonstration: a NEW Go test file {wt}/seed_demo_test.go (package e
 When done, leave the worktree with your source change applied (uncommitted) and seed_demo_test.go present, and ALSO write:
   {wt}/SEED_PATCH.diff   = output of `git diff -- '*.go' ':!*_test.go'` (the source change only)
   {wt}/SEED_META.txt     = 5-10 lines: what you changed, why it breaks the property, what exactly is needed for it to manifest, and the commands you ran with their outcomes.
-Reply with a short summary (the diff, what manifests it, confirmation of the test outcomes). If after a serious attempt (at most ~40 minutes) you cannot find a change that keeps the existing suite green, say so and describe the closest attempt. If while reading you notice that the UNCHANGED library already violates the property on some input, report that too (with the input).'''
+Reply with a short summary (the diff, what manifests it, confirmation of the test outcomes). If after a serious attempt (at most ~{mins} minutes) you cannot find a change that keeps the existing suite green, say so and describe the closest attempt. If while reading you notice that the UNCHANGED library already violates the property on some input, report that too (with the input).'''
 for l in open('/verif/properties.jsonl'):
     p = json.loads(l); pid = p['id']
     wt = f'/tmp/seed/{pid}-{wave}'
-    open(f'/tmp/seed/prompt{wave}_{pid}.txt', 'w').write(tmpl.format(wt=wt, id=pid, title=p['title'], statement=p['statement'], quant=p['quantifier']['text'], focus=focus))
+    open(f'/tmp/seed/prompt{wave}_{pid}.txt', 'w').write(tmpl.format(wt=wt, id=pid, title=p['title'], statement=p['statement'], quant=p['quantifier']['text'], focus=focus, mins=(sys.argv[3] if len(sys.argv)>3 else '40')))
 print('ok')
